@@ -20,9 +20,10 @@ import (
 )
 
 type c05Probe struct {
-	m   *vk.M
-	idx int
-	bad int
+	m      *vk.M
+	idx    int
+	bad    int
+	family string // short label of the probe group (counter / signature component)
 }
 
 // run executes one probe. class: valid (must be accepted and pass the audit), fault
@@ -34,9 +35,9 @@ func (p *c05Probe) run(class string, api c05API, root *g.Type, tagKey string, do
 	}
 	s := &g.Shape{Root: root, TagKey: tagKey}
 	c := &g.Case{Shape: s, Doc: doc, Env: env}
-	cm := &c05Mon{m: p.m, idx: p.idx}
+	cm := &c05Mon{m: p.m, idx: p.idx, coarse: true}
 	out, d := c05Call(cm, api, s, doc, "class="+class+";"+what)
-	ft := &g.Fault{Kind: what, MustErr: class == "fault", Desc: what}
+	ft := &g.Fault{Kind: p.family, MustErr: class == "fault", Desc: what}
 	jc := class
 	if class == "free" {
 		jc = "free"
@@ -71,7 +72,7 @@ func c05FreshEnv(val string) (string, map[string]string) {
 func TestVerifC05Boundary(t *testing.T) {
 	m := vk.New(t, "C05", "complete matrix: 12 numeric kinds x sources {JSON number, YAML number, ,string option, form string (WithStringValues), default=, env=, slice element, map element, pointer, UnmarshalKey} x {min, max of the kind: accepted exactly; literals outside the kind (max+1, min-1, 2^bits, 2^63, 2^64, 1e39, 1e400 ...): rejected}")
 	defer m.Done()
-	p := &c05Probe{m: m}
+	p := &c05Probe{m: m, family: "overflow"}
 	maxI64 := big.NewInt(1<<62 - 1 + 1<<62)
 	for _, k := range g.NumKinds {
 		var valid, over []string
@@ -184,7 +185,7 @@ func c05N(s string) json.Number { return json.Number(s) }
 func TestVerifC05Shapes(t *testing.T) {
 	m := vk.New(t, "C05", "matrix: ~50 field types (leaves, pointers, slices, maps incl. map[int]T, nested/embedded structs) x ~45 document values (null, scalars, arrays, objects, nested, mixed) through JSON, YAML, form-string and UnmarshalKey entry points: never a panic, error or exact; plus range=[( )] boundaries for every numeric kind, options, optional=dep with range, env on every kind, inherit, null for required/optional")
 	defer m.Done()
-	p := &c05Probe{m: m}
+	p := &c05Probe{m: m, family: "matrix"}
 	st := func() *g.Type { return c05One("A", "a", g.L(g.Int8), g.Opts{}) }
 	types := []*g.Type{
 		g.L(g.Bool), g.L(g.Int8), g.L(g.Int64), g.L(g.Uint8), g.L(g.Uint64), g.L(g.Float32), g.L(g.Float64), g.L(g.String), g.L(g.Duration),
@@ -241,6 +242,7 @@ func TestVerifC05Shapes(t *testing.T) {
 		}
 	}
 
+	p.family = "leaf-options"
 	// ,string and options= on leaves fed with every scalar class (and form unmarshaller fed non-strings)
 	for _, k := range []g.Kind{g.Bool, g.Int8, g.Uint16, g.Float32, g.Float64, g.String, g.Duration, g.Int64} {
 		for _, o := range []g.Opts{{FromString: true}, {FromString: true, Options: []string{"1", "2"}}, {Options: []string{"1", "2", "1s", "true", "x"}}, {FromString: true, Range: &g.Range{L: "0", R: "5", LI: true, RI: true}}} {
@@ -258,6 +260,7 @@ func TestVerifC05Shapes(t *testing.T) {
 		}
 	}
 
+	p.family = "out-of-range"
 	// range= : all four bracket forms x values at and around the bounds, for every numeric kind
 	for _, k := range g.NumKinds {
 		l, r := "3", "9"
@@ -308,6 +311,7 @@ func TestVerifC05Shapes(t *testing.T) {
 		}
 	}
 
+	p.family = "not-in-options"
 	// options= for every leaf kind: member accepted, non-member rejected (number, string option, form)
 	optsFor := map[g.Kind][3]string{
 		g.Int8: {"5", "-7", "6"}, g.Int64: {"5", "-7", "6"}, g.Uint16: {"5", "7", "6"}, g.Float64: {"0.5", "2", "0.75"}, g.Float32: {"0.5", "2", "0.75"},
@@ -332,6 +336,7 @@ func TestVerifC05Shapes(t *testing.T) {
 		}
 	}
 
+	p.family = "presence"
 	// required / optional / default / null for every leaf kind and the container kinds
 	leafVal := map[g.Kind]string{g.Bool: "true", g.Int8: "-5", g.Int16: "5", g.Int32: "5", g.Int64: "5", g.Int: "5", g.Uint8: "5", g.Uint16: "5", g.Uint32: "5", g.Uint64: "5", g.Uint: "5",
 		g.Float32: "0.5", g.Float64: "0.5", g.String: "s", g.Duration: "1m30s"}
@@ -407,7 +412,7 @@ func TestVerifC05Shapes(t *testing.T) {
 		if m.Only(p.idx) {
 			s := &g.Shape{Root: root, TagKey: "json"}
 			doc := map[string]any{"host": g.LeafDoc(k, x, false), "c": map[string]any{"n": c05N("1")}}
-			cm := &c05Mon{m: m, idx: p.idx}
+			cm := &c05Mon{m: m, idx: p.idx, coarse: true}
 			out, d := c05Call(cm, c05JSON, s, doc, "class=valid;inherit "+k.String())
 			switch {
 			case out.pv != nil:
